@@ -383,5 +383,164 @@ theorem keysWideM_take (p : Path) (n : Nat) (h : keysWideM p = true) : keysWideM
 def prefixesWM (p : WidePathM) : List WidePathM :=
   (List.range p.1.length).map fun i => ⟨p.1.take (i + 1), keysWideM_take p.1 (i + 1) p.2⟩
 
+/-! ### any carrier of keys on which `keyT` is an equivalence -/
+
+/-- `keyT` is an equivalence relation on the keys admitted by `K` -/
+structure KeyEquiv (K : Value → Bool) : Prop where
+  refl : ∀ a, K a = true → keyT a a = true
+  symm : ∀ a b, K a = true → K b = true → keyT a b = true → keyT b a = true
+  trans : ∀ a b c, K a = true → K b = true → K c = true → keyT a b = true → keyT b c = true →
+    keyT a c = true
+
+def keysIn (K : Value → Bool) : Path → Bool
+  | [] => true
+  | .getAttr _ :: p => keysIn K p
+  | .index k :: p => K k && keysIn K p
+
+section Carrier
+variable {K : Value → Bool} (hK : KeyEquiv K)
+include hK
+
+theorem stepsT_refl_in : ∀ (p : Path), keysIn K p = true → stepsT p p = true
+  | [], _ => rfl
+  | .getAttr a :: p, h => by
+    simp only [keysIn] at h
+    simp [stepsT, stepsT_refl_in p h]
+  | .index a :: p, h => by
+    simp only [keysIn, Bool.and_eq_true] at h
+    simp [stepsT, hK.refl a h.1, stepsT_refl_in p h.2]
+
+theorem stepsT_symm_in : ∀ (p q : Path), p.length = q.length → keysIn K p = true → keysIn K q = true →
+    stepsT p q = true → stepsT q p = true
+  | [], [], _, _, _, _ => rfl
+  | [], _ :: _, hl, _, _, _ => by simp at hl
+  | _ :: _, [], hl, _, _, _ => by simp at hl
+  | .getAttr a :: p, .index b :: q, _, _, _, h => by simp [stepsT] at h
+  | .index a :: p, .getAttr b :: q, _, _, _, h => by simp [stepsT] at h
+  | .getAttr a :: p, .getAttr b :: q, hl, hp, hq, h => by
+    simp only [keysIn] at hp hq
+    simp only [stepsT, Bool.and_eq_true, beq_iff_eq] at h ⊢
+    exact ⟨h.1.symm, stepsT_symm_in p q (by simpa using hl) hp hq h.2⟩
+  | .index a :: p, .index b :: q, hl, hp, hq, h => by
+    simp only [keysIn, Bool.and_eq_true] at hp hq
+    simp only [stepsT, Bool.and_eq_true] at h ⊢
+    exact ⟨hK.symm a b hp.1 hq.1 h.1, stepsT_symm_in p q (by simpa using hl) hp.2 hq.2 h.2⟩
+
+theorem stepsT_trans_in : ∀ (p q r : Path), p.length = q.length → q.length = r.length →
+    keysIn K p = true → keysIn K q = true → keysIn K r = true →
+    stepsT p q = true → stepsT q r = true → stepsT p r = true
+  | [], _, _, _, _, _, _, _, _, _ => by simp [stepsT]
+  | _ :: _, [], _, hl, _, _, _, _, _, _ => by simp at hl
+  | _ :: _, _ :: _, [], _, hl, _, _, _, _, _ => by simp at hl
+  | .getAttr a :: p, .index b :: q, _ :: _, _, _, _, _, _, h, _ => by simp [stepsT] at h
+  | .index a :: p, .getAttr b :: q, _ :: _, _, _, _, _, _, h, _ => by simp [stepsT] at h
+  | .getAttr a :: p, .getAttr b :: q, .index c :: r, _, _, _, _, _, _, h => by simp [stepsT] at h
+  | .index a :: p, .index b :: q, .getAttr c :: r, _, _, _, _, _, _, h => by simp [stepsT] at h
+  | .getAttr a :: p, .getAttr b :: q, .getAttr c :: r, h1, h2, hp, hq, hr, h, h' => by
+    simp only [keysIn] at hp hq hr
+    simp only [stepsT, Bool.and_eq_true, beq_iff_eq] at h h' ⊢
+    exact ⟨h.1.trans h'.1, stepsT_trans_in p q r (by simpa using h1) (by simpa using h2) hp hq hr h.2 h'.2⟩
+  | .index a :: p, .index b :: q, .index c :: r, h1, h2, hp, hq, hr, h, h' => by
+    simp only [keysIn, Bool.and_eq_true] at hp hq hr
+    simp only [stepsT, Bool.and_eq_true] at h h' ⊢
+    exact ⟨hK.trans a b c hp.1 hq.1 hr.1 h.1 h'.1,
+      stepsT_trans_in p q r (by simpa using h1) (by simpa using h2) hp.2 hq.2 hr.2 h.2 h'.2⟩
+
+/-- `pathSetRules` is lawful on the paths whose index keys lie in such a carrier -/
+theorem pathRules_lawfulOn_in : pathRules.LawfulOn (fun p => keysIn K p = true) where
+  refl a ha := (pathRules_equiv_iff a a).mpr ⟨rfl, stepsT_refl_in hK a ha⟩
+  symm a b ha hb h := by
+    obtain ⟨hl, hs⟩ := (pathRules_equiv_iff a b).mp h
+    exact (pathRules_equiv_iff b a).mpr ⟨hl.symm, stepsT_symm_in hK a b hl ha hb hs⟩
+  trans a b c ha hb hc h h' := by
+    obtain ⟨hl, hs⟩ := (pathRules_equiv_iff a b).mp h
+    obtain ⟨hl', hs'⟩ := (pathRules_equiv_iff b c).mp h'
+    exact (pathRules_equiv_iff a c).mpr ⟨hl.trans hl', stepsT_trans_in hK a b c hl hl' ha hb hc hs hs'⟩
+  hash_eq a b _ _ h := pathRules_hash_eq a b h
+
+/-- marks on the keys, at any depth, play no part: the carrier may be asked of the unmarked key -/
+theorem KeyEquiv.unmarkDeep : KeyEquiv (fun k => K k.unmarkDeep) where
+  refl a ha := by rw [keyT_unmarkDeep]; exact hK.refl _ ha
+  symm a b ha hb h := by rw [keyT_unmarkDeep] at h ⊢; exact hK.symm _ _ ha hb h
+  trans a b c ha hb hc h h' := by
+    rw [keyT_unmarkDeep] at h h' ⊢
+    exact hK.trans _ _ _ ha hb hc h h'
+
+end Carrier
+
+/-- a carrier is an equivalence as soon as `keyT` is one among its keys OF EACH TYPE, its keys
+are wholly known and mark-free, and their types well formed: across types `Equals` is true for
+two nulls only -/
+theorem keyEquiv_of_sameType (K : Value → Bool)
+    (hw : ∀ k, K k = true → k.ty.wf = true ∧ k.v.whollyKnown = true ∧ k.v.containsMarked = false)
+    (hrefl : ∀ a, K a = true → keyT a a = true)
+    (hsymm : ∀ t a b, K ⟨t, a⟩ = true → K ⟨t, b⟩ = true → keyT ⟨t, a⟩ ⟨t, b⟩ = true → keyT ⟨t, b⟩ ⟨t, a⟩ = true)
+    (htrans : ∀ t a b c, K ⟨t, a⟩ = true → K ⟨t, b⟩ = true → K ⟨t, c⟩ = true →
+      keyT ⟨t, a⟩ ⟨t, b⟩ = true → keyT ⟨t, b⟩ ⟨t, c⟩ = true → keyT ⟨t, a⟩ ⟨t, c⟩ = true) :
+    KeyEquiv K := by
+  have cross : ∀ ta tb a b, K ⟨ta, a⟩ = true → K ⟨tb, b⟩ = true → ta ≠ tb →
+      keyT ⟨ta, a⟩ ⟨tb, b⟩ = (a.isNull && b.isNull) := by
+    intro ta tb a b ha hb hne
+    obtain ⟨wa, ka, ma⟩ := hw _ ha
+    obtain ⟨wb, kb, mb⟩ := hw _ hb
+    simp only [keyT, equals_cross wa wb hne ka kb ma mb, keyT_boolVal]
+  have nullOf : ∀ t a, K ⟨t, a⟩ = true → keyT ⟨t, a⟩ ⟨t, .null⟩ = true → a = .null := by
+    intro t a ha h
+    obtain ⟨_, ka, ma⟩ := hw _ ha
+    by_cases hn : a.isNull = true
+    · exact isNull_eq_null ma hn
+    · have := (rawB_null_iff.C03aux_equals_nulls t t a (isKnown_of_wide ka) (by simpa using hn) ma).2
+      simp only [keyT, this] at h
+      cases h
+  refine ⟨hrefl, ?_, ?_⟩
+  · intro a b ha hb h
+    obtain ⟨ta, va⟩ := a
+    obtain ⟨tb, vb⟩ := b
+    by_cases ht : ta = tb
+    · subst ht; exact hsymm ta va vb ha hb h
+    · rw [cross ta tb va vb ha hb ht] at h
+      rw [cross tb ta vb va hb ha (fun h' => ht h'.symm)]
+      simp only [Bool.and_eq_true] at h ⊢
+      exact ⟨h.2, h.1⟩
+  · intro a b c ha hb hc h h'
+    obtain ⟨ta, va⟩ := a
+    obtain ⟨tb, vb⟩ := b
+    obtain ⟨tc, vc⟩ := c
+    obtain ⟨_, _, ma⟩ := hw _ ha
+    obtain ⟨_, _, mb⟩ := hw _ hb
+    obtain ⟨_, _, mc⟩ := hw _ hc
+    simp only at ma mb mc
+    by_cases h1 : ta = tb
+    · subst h1
+      by_cases h2 : ta = tc
+      · subst h2; exact htrans ta va vb vc ha hb hc h h'
+      · rw [cross ta tc vb vc hb hc h2] at h'
+        simp only [Bool.and_eq_true] at h'
+        have hbn := isNull_eq_null mb h'.1
+        subst hbn
+        have han := nullOf ta va ha h
+        subst han
+        rw [cross ta tc .null vc ha hc h2, h'.2]
+        rfl
+    · rw [cross ta tb va vb ha hb h1] at h
+      simp only [Bool.and_eq_true] at h
+      have han := isNull_eq_null ma h.1
+      have hbn := isNull_eq_null mb h.2
+      subst han hbn
+      by_cases h2 : tb = tc
+      · subst h2
+        have hcn : vc = .null := nullOf tb vc hc (hsymm tb .null vc hb hc h')
+        subst hcn
+        rw [cross ta tb .null .null ha hc h1]
+        rfl
+      · rw [cross tb tc .null vc hb hc h2] at h'
+        simp only [Bool.and_eq_true] at h'
+        have hcn := isNull_eq_null mc h'.2
+        subst hcn
+        by_cases h3 : ta = tc
+        · subst h3; exact hrefl _ ha
+        · rw [cross ta tc .null .null ha hc h3]
+          rfl
+
 end PathSet
 end CtyModel
